@@ -224,6 +224,8 @@ def real_dump(reader, fails, tag):
                     fails.append((tag + "C10-terminfo-length", "term_info(%s:%s) min/max length %r/%r but docs have %r/%r"
                                   % (fname, t, ti.min_length(), ti.max_length(), minl, maxl)))
     cr = reader.column_reader("num") if reader.has_column("num") else None
+    # a document without a value reads the field's column default (the largest int: such documents sort last)
+    col_default = reader.schema["num"].from_column_value(reader.schema["num"].column_type.default_value())
     for dn, key in dn2id.items():
         sf = dict(reader.stored_fields(dn))
         post = {}
@@ -256,11 +258,24 @@ def real_dump(reader, fails, tag):
                               % (key, vw, dict((t, 2.0 * len(p)) for t, p in post.items()))))
         elif post:
             fails.append((tag + "C10-vector-missing", "doc %s has no vector" % key))
-        if cr is not None and "num" in sf:
-            cv = cr[dn]
-            if cv != sf["num"]:
-                fails.append((tag + "C08-column", "column value of %s = %r, stored %r" % (key, cv, sf["num"])))
+        if cr is not None:
+            # a document without a value reads the column default, whichever segment it lives in
+            try:
+                cv = cr[dn]
+            except Exception as e:
+                cv = "%s: %s" % (type(e).__name__, e)
+            if cv != sf.get("num", col_default):
+                fails.append((tag + "C08-column", "column value of %s (doc %d) = %r, stored %r" % (key, dn, cv, sf.get("num"))))
         out.setdefault(key, []).append(rec)
+    if cr is not None:
+        try:
+            rows = list(cr)
+        except Exception as e:
+            rows = "%s: %s" % (type(e).__name__, e)
+        exp_rows = dict((dn, reader.stored_fields(dn).get("num", col_default)) for dn in dn2id)
+        if not isinstance(rows, list) or len(rows) != reader.doc_count_all() or any(rows[dn] != v for dn, v in exp_rows.items()):
+            fails.append((tag + "C08-column-iter", "iterating the column gives %r for %d documents; live rows expected %r"
+                          % (rows, reader.doc_count_all(), exp_rows)))
     if reader.doc_count() != len(dn2id):
         fails.append((tag + "C07-doc_count", "doc_count() = %d but %d live docs" % (reader.doc_count(), len(dn2id))))
     return out
